@@ -307,6 +307,9 @@ type BinaryBlockDump struct {
 
 // DumpBinaryBlock returns a hex dump of a specific block
 func DumpBinaryBlock(path string, blockNum int) (*BinaryBlockDump, error) {
+	if blockNum < 0 {
+		return nil, fmt.Errorf("block number cannot be negative")
+	}
 	br := &BlockRange{Start: blockNum, End: blockNum}
 	data, err := ReadBlockRange(path, br)
 	if err != nil {
